@@ -1277,7 +1277,8 @@ class World:
 # generation
 
 MEM_SPELL = [lambda m: '%dM' % m, lambda m: '%dK' % (m * 1024),
-             lambda m: ('%dG' % (m // 1024)) if m % 1024 == 0 else '%dM' % m]
+             lambda m: ('%dG' % (m // 1024)) if m % 1024 == 0 else '%dM' % m,
+             lambda m: '%dm' % m, lambda m: ' %dk ' % (m * 1024)]
 # capacities only: spellings that are not a whole number of megabytes (the
 # declared capacity is then a fraction of a megabyte above what the scheduler
 # may hand out); demands stay whole-megabyte quantities
@@ -1287,6 +1288,7 @@ CAP_SPELL = MEM_SPELL + [
     lambda m: '%dMB' % m,
     lambda m: '%dKB' % (m * 1000 + 1),
     lambda m: ('%dGB' % (m // 256)) if m >= 256 else '%dMB' % m,
+    lambda m: '%dmb' % m, lambda m: '%dMb' % m, lambda m: '%dkB' % (m * 1000),
 ]
 CPU_SPELL = [lambda c: '%d%%' % c, lambda c: '%d' % c, lambda c: c]
 
